@@ -6,6 +6,8 @@ package otter
 // deletion events.  The audit record is judged by spec/WRAudit.tla (Agree, Bound, Conservation).
 
 import (
+	"sync/atomic"
+	"fmt"
 	"strings"
 	"bufio"
 	"encoding/json"
@@ -36,6 +38,9 @@ type wrScenario struct {
 	Seed     int64   `json:"seed"`
 	Points   string  `json:"points"`   // all | pub
 	InvAll   int     `json:"invall"`   // InvalidateAll calls by an extra goroutine
+	Reads    int     `json:"reads"`    // 1 = read-heavy mix (stale read-buffer entries for replaced nodes)
+	Stale    int     `json:"stale"`    // 1 = after the race, one reader per key is stalled between its table lookup and its
+	                                   // read-buffer append across a rewrite of the key that maintenance has already applied
 }
 
 type wrWrite struct {
@@ -94,11 +99,13 @@ type wrAudit struct {
 	Writes   []wrWrite  `json:"writes"`
 	Events   []wrEvent  `json:"events"`
 	Steps    int        `json:"steps"`
+	LibPanic string     `json:"libpanic"` // panic raised by the code under test in a goroutine the cache started
 }
 
 var wrPubPoints = map[string]bool{
 	"set.afterCompute": true, "inv.afterCompute": true, "cmp.afterCompute": true, "aw.push": true,
 	"mt.task": true, "ev.beforeDelete": true, "db.enter": true, "mt.pop": true, "ld.beforeInstall": true,
+	"get.afterLookup": true, // a reader between the table lookup and the read-buffer append
 }
 
 func nodeState(n node.Node[int, int]) string {
@@ -211,10 +218,18 @@ func auditCache(c *Cache[int, int], a *wrAudit) {
 	sort.Ints(a.Hottest)
 }
 
-func runWRScenario(sc wrScenario) wrAudit {
+func runWRScenario(sc wrScenario) (a wrAudit) {
 	var mu sync.Mutex
 	seq := 0
-	a := wrAudit{T: "audit", Sc: sc, Nodes: []wrNode{}, All: []wrKV{}, Hottest: []int{}, Coldest: []int{}, Writes: []wrWrite{}, Events: []wrEvent{}}
+	defer func() {
+		// a panic of the code under test on the driver's own goroutine (caller-runs maintenance in CleanUp, the audit's
+		// iteration over corrupt policy structures) is an observation as well
+		if r := recover(); r != nil {
+			a.LibPanic = fmt.Sprintf("%v", r)
+			a.Nodes, a.All, a.Hottest, a.Coldest = []wrNode{}, []wrKV{}, []int{}, []int{}
+		}
+	}()
+	a = wrAudit{T: "audit", Sc: sc, Nodes: []wrNode{}, All: []wrKV{}, Hottest: []int{}, Coldest: []int{}, Writes: []wrWrite{}, Events: []wrEvent{}}
 	clk := newManualClock(1_000_000_000)
 	o := &Options[int, int]{
 		Clock: clk,
@@ -246,6 +261,21 @@ func runWRScenario(sc wrScenario) wrAudit {
 	}
 	c := Must(o)
 	defer c.StopAllGoroutines()
+	var libPanic atomic.Value
+	if sc.SyncExec != 1 {
+		// the default executor (go fn()), except that a panic of the code under test is an observation, not a crash of
+		// the driver; hasDefaultExecutor stays true, so the rescheduling behaviour is the default one
+		c.cache.executor = func(fn func()) {
+			go func() {
+				defer func() {
+					if r := recover(); r != nil {
+						libPanic.CompareAndSwap(nil, fmt.Sprintf("%v", r))
+					}
+				}()
+				fn()
+			}()
+		}
+	}
 	record := func(w wrWrite) {
 		mu.Lock()
 		a.Writes = append(a.Writes, w)
@@ -256,7 +286,11 @@ func runWRScenario(sc wrScenario) wrAudit {
 			for j := 0; j < sc.Ops; j++ {
 				k := rng.Intn(sc.Keys)
 				v := w*1000 + j + 1
-				switch x := rng.Intn(10); {
+				x := rng.Intn(10)
+				if sc.Reads == 1 && rng.Intn(3) == 0 {
+					x = 9
+				}
+				switch {
 				case x < 6:
 					old, fresh := c.Set(k, v)
 					prev := -1
@@ -315,7 +349,23 @@ func runWRScenario(sc wrScenario) wrAudit {
 	} else {
 		s := verifkit.NewSched(sc.Seed)
 		s.Adopt = true
-		s.Policy = sc.Policy
+		s.Policy = strings.TrimSuffix(sc.Policy, "+stallread")
+		if strings.HasSuffix(sc.Policy, "+stallread") {
+			// readers stay between the table lookup and the read-buffer append while writers and maintenance move on:
+			// the read buffer then receives nodes that have been replaced or removed in the meantime
+			s.Choose = func(parked []*verifkit.G, rnd *rand.Rand) *verifkit.G {
+				var rest []*verifkit.G
+				for _, g := range parked {
+					if g.At != "get.afterLookup" {
+						rest = append(rest, g)
+					}
+				}
+				if len(rest) == 0 || len(rest) == len(parked) || rnd.Intn(10) == 0 {
+					return nil
+				}
+				return rest[rnd.Intn(len(rest))]
+			}
+		}
 		if sc.Points != "all" {
 			s.Filter = func(id string) bool { return wrPubPoints[id] }
 		} else {
@@ -343,6 +393,76 @@ func runWRScenario(sc wrScenario) wrAudit {
 		a.Diag = ""
 	}
 		a.Steps = len(s.Log)
+	}
+	if p := libPanic.Load(); p != nil {
+		// maintenance died holding the eviction mutex: nothing further can be asked of this cache
+		a.LibPanic = p.(string)
+		return a
+	}
+	// everything after the race runs under a watchdog: if maintenance died in a goroutine of the cache it left the
+	// eviction mutex locked and every further call that needs it blocks for ever
+	post := make(chan string, 1)
+	go func() {
+		defer func() {
+			if r := recover(); r != nil {
+				post <- fmt.Sprintf("%v", r)
+				return
+			}
+			post <- ""
+		}()
+		runWRPost(sc, c, &a, &mu, record, clk)
+	}()
+	select {
+	case msg := <-post:
+		if msg != "" {
+			a.LibPanic = msg
+			a.Nodes, a.All, a.Hottest, a.Coldest = []wrNode{}, []wrKV{}, []int{}, []int{}
+		}
+	case <-time.After(20 * time.Second):
+		msg := "the cache does not respond any more after the race (CleanUp / SetMaximum / iteration blocked for 20 s)"
+		if p := libPanic.Load(); p != nil {
+			msg = p.(string) + " - and the eviction mutex was never released"
+		}
+		a = wrAudit{T: "audit", Sc: sc, Nodes: []wrNode{}, All: []wrKV{}, Hottest: []int{}, Coldest: []int{}, Writes: []wrWrite{}, Events: []wrEvent{}, LibPanic: msg}
+	}
+	if a.LibPanic == "" {
+		if p := libPanic.Load(); p != nil {
+			a.LibPanic = p.(string)
+		}
+	}
+	return a
+}
+
+func runWRPost(sc wrScenario, c *Cache[int, int], a *wrAudit, mu *sync.Mutex, record func(wrWrite), clk *manualClock) {
+	if sc.Stale == 1 {
+		type held struct {
+			n node.Node[int, int]
+		}
+		var hs []held
+		for k := 0; k < sc.Keys; k++ {
+			if n := c.cache.hashmap.Get(k); n != nil { // the reader's lookup (GetIfPresent up to the hook get.afterLookup)
+				hs = append(hs, held{n})
+				v := 90000 + k
+				old, fresh := c.Set(k, v)
+				prev := -1
+				if !fresh {
+					prev = old
+				}
+				record(wrWrite{k, v, prev, "Set"})
+			}
+		}
+		for i := 0; i < 200 && c.cache.drainStatus.Load() != idle; i++ {
+			time.Sleep(time.Millisecond)
+		}
+		c.CleanUp()
+		for _, h := range hs { // the readers resume: hit accounting and read-buffer append for nodes that were replaced
+			c.cache.afterRead(h.n, clk.NowNano(), false, false)
+		}
+		if sc.Size != "none" && sc.Seed%2 == 0 {
+			// and the maximum is lowered afterwards: every entry must still be reachable as an eviction victim
+			c.CleanUp()
+			c.SetMaximum(1)
+		}
 	}
 	// quiescence: every call has returned; wait for the goroutines the cache started, then let pending maintenance run
 	deadline := time.Now().Add(500 * time.Millisecond)
@@ -372,9 +492,8 @@ func runWRScenario(sc wrScenario) wrAudit {
 		time.Sleep(2 * time.Millisecond)
 	}
 	mu.Lock()
-	auditCache(c, &a)
-	mu.Unlock()
-	return a
+	defer mu.Unlock()
+	auditCache(c, a)
 }
 
 // TestVerifWR: VERIF_IN = JSON array of scenarios; VERIF_OUT = NDJSON audit records.
